@@ -37,6 +37,10 @@ PROP = [  # (substring of the commit subject, property, what failed before the f
  ('row writes failed or corrupted data on equal-length', 'C06', 'RaggedArray row writes on equal-length arrays: a[i]=row of another length, a[sel]=rows, object-dtype _data after a row write, augmented assignment on an empty row selection'),
  ('append of a flat row raised', 'C06', 'RaggedArray.append([x, y]) raised ValueError'),
  ('rows of an equal-length RaggedArray were copies', 'C06', 'row = a[i]; row[j] = x on an equal-length array left _data stale'),
+ ('numpy scalar as left operand', 'C06', 'np.int64(2) * ragged_array (numpy scalar on the left of an operator) raised ValueError or returned a plain ndarray'),
+ ('asserted c <= 0 on a quantity', 'C12', 'both Prinz MLE implementations raised AssertionError (assert c <= 0) from rounding on strongly connected count matrices with pendant states'),
+ ('rejected a lengths hint of numpy integers', 'C15', 'load_as_concatenated(files, lengths=<numpy integers>) raised TypeError'),
+ ('weighted_mi failed for integer weight vectors', 'C18', 'weighted_mi with an integer one-hot weight vector raised UFuncTypeError'),
 ]
 log = subprocess.run(['git', '-C', '/repo', 'log', '--reverse', '--format=%h|%s'], capture_output=True, text=True).stdout.strip().split('\n')
 fixed = []
